@@ -835,7 +835,10 @@ Definition do_op (s : state) (o : op) : state :=
       let s := do_cancel s ids in
       match res s with RErr _ => s | _ => set_res s (RIds ids) end
   | OpLock => set_locked s true
-  | OpUnlock => set_locked s false
+  | OpUnlock =>
+      (* ghost: unlocking while a gather_and_close() is (or was) in progress *)
+      let s := if Nat.ltb 0 (n_gac s) then set_taint_unlock s true else s in
+      set_locked s false
   | OpSetSize v =>
       match v with
       | None => set_res s (RErr ErrValueError)
@@ -854,6 +857,7 @@ Definition do_op (s : state) (o : op) : state :=
         end in
       set_res s (go gs [])
   | OpDriver k =>
+      let s := match k with DGatherClose _ => set_n_gac s (S (n_gac s)) | _ => s end in
       let d := length (dtasks s) in
       let s := set_dtasks s (dtasks s ++ [mk_dtask k DNotStarted None None None None []]) in
       sched s (HT (TD d))
@@ -924,6 +928,6 @@ Definition step (s0 : state) (l : label) : state :=
 
 Definition init (c : config) : state :=
   mk_state c 0 false false [] [] [] (cf_size c) [] [] [] [] 0 [] [] [] [] [] CIdle [] RNone []
-           (cf_size c) 0 false false false.
+           (cf_size c) 0 false false false false 0.
 
 Definition run (c : config) (tr : list label) : state := fold_left step tr (init c).
